@@ -111,7 +111,40 @@ func ruleLookupOrder(p *Prog, r *Report, rule string) {
 		_, e0 := extractOf(elems[0], 0, "(*leveldb.DB).getMems")
 		_, e1 := extractOf(elems[1], 1, "(*leveldb.DB).getMems")
 		r.Site(1)
-		r.Check(n == 2 && e0 && e1, fnName(fn), "effective-before-frozen", "the shared buffers are searched in the order {effective, frozen} (newer first)", "the array feeding the buffer loop is not {getMems#0 (effective), getMems#1 (frozen)}", p.Pos(fn.Pos()))
+		if n == 2 && e0 && e1 {
+			r.OK(fnName(fn), "effective-before-frozen", "the shared buffers are searched in the order {effective, frozen} (newer first)")
+		} else {
+			// unrolled form: memGet(em.DB, …) precedes memGet(fm.DB, …)
+			bufGet := func(idx int) InstrPred {
+				return func(in ssa.Instruction) bool {
+					if !memGet(in) {
+						return false
+					}
+					a := callCommon(in).Args[0]
+					u, ok := stripConv(a).(*ssa.UnOp)
+					if !ok {
+						return false
+					}
+					_, f, base, ok := fieldOf(u.X)
+					if !ok || f != "DB" {
+						return false
+					}
+					_, isEx := extractOf(base, idx, "(*leveldb.DB).getMems")
+					return isEx
+				}
+			}
+			g0, g1 := bufGet(0), bufGet(1)
+			if countInstr(fn, g0) == 1 && countInstr(fn, g1) == 1 {
+				// (the effective buffer may be absent: what must not happen is frozen first, effective after)
+				if w := findPath(after(fn, g1), nil, nil, g0); w != nil {
+					r.Fail(fnName(fn), "effective-before-frozen", "the shared buffers are searched in the order {effective, frozen} (newer first)", "the effective buffer is searched after the frozen one", p.posOfLast(w, g0), p.renderPath(w))
+				} else {
+					r.OK(fnName(fn), "effective-before-frozen", "the shared buffers are searched in the order {effective, frozen} (newer first)")
+				}
+			} else {
+				r.Fail(fnName(fn), "effective-before-frozen", "the shared buffers are searched in the order {effective, frozen} (newer first)", "neither a loop over {getMems#0 (effective), getMems#1 (frozen)} nor one memGet per buffer in that order was found", p.Pos(fn.Pos()), nil)
+			}
+		}
 		// memGet is applied to the loop element's DB
 		loopGet := andPred(memGet, func(in ssa.Instruction) bool { return !argIs(in, 0, mParam("auxm")) })
 		if requireSites(p, r, fn, "buffer-lookup", "memGet(m.DB) in the buffer loop", loopGet, 1) {
